@@ -62,7 +62,7 @@ def main(argv):
                       dict(kind="proof", problems=proofs["problems"], unchecked=mod.PROOF_MODULE), no_input=True)
     if tier == "thorough":
         # independent re-check of the compiled proof module by Lean's external checker
-        r = core.sh(["lake", "env", "leanchecker", mod.PROOF_MODULE], cwd=core.LEAN, timeout=3600)
+        r = core.sh(["lake", "env", "leanchecker", mod.PROOF_MODULE] + list(getattr(mod, "MORE_PROOF_MODULES", [])), cwd=core.LEAN, timeout=3600)
         res.coverage["leanchecker"] = "ok" if r.returncode == 0 else "failed"
         if r.returncode != 0:
             res.violation("leanchecker rejects the compiled proof module of %s" % pid,
